@@ -230,7 +230,7 @@ Norm(d) == [d EXCEPT !.xmin = NormFlag(d.xmin), !.xmax = NormFlag(d.xmax), !.uni
                      !.search = NormFlag(d.search), !.flatten = NormFlag(d.flatten),
                      !.ent = IF d.ent = "notprimary" THEN "na" ELSE d.ent,
                      \* a primary key is always required ([W] buildProperty: "a primary key is required")
-                     !.pres = IF d.ent = "primary" /\ d.card = "single" THEN "required" ELSE d.pres]
+                     !.pres = IF d.ent = "primary" /\ d.card \in {"single", "array"} THEN "required" ELSE d.pres]
 
 \* ---------------------------------------------------------------------------
 \* Write: declaration -> abstract annotations.  vt = arm of (buf.validate.field) type oneof, xt = arm of
@@ -293,7 +293,7 @@ WriteItem(d) ==
 Write(d) ==
     [label |-> CASE d.card = "array" -> "repeated" [] d.card = "map" -> "map" [] OTHER -> "singular",
      proto3opt |-> d.pres = "optional",
-     required |-> d.pres = "required" \/ (d.ent = "primary" /\ d.card = "single"),
+     required |-> d.pres = "required" \/ (d.ent = "primary" /\ d.card \in {"single", "array"}),
      comment |-> d.desc,
      item |-> WriteItem(d),            \* under repeated.items / map.values for containers
      rmin |-> d.minItems, rmax |-> d.maxItems, runique |-> d.unique = "t",
